@@ -159,6 +159,34 @@ def enzymes_in_scope() -> List[Tuple[str, str, int, int]]:
     return out
 
 
+def ambiguous_site_enzymes() -> List[str]:
+    """Enzymes outside the ACGT-site quantifier that the library still accepts
+    as cutters: 5' overhang, non-palindromic, single cut downstream of a site
+    spelled with IUPAC ambiguity letters.  Used only for the strand-symmetry
+    obligation of the thorough tier."""
+    import Bio.Restriction as R
+
+    out = []
+    for e in sorted(R.AllEnzymes, key=str):
+        try:
+            site = e.site
+            if not site or not (set(site) - set("ACGT")) or set(site) - set("ACGTRYKMSWBDHVN"):
+                continue
+            if e.is_blunt() or e.is_unknown() or not e.is_5overhang() or e.is_palindromic():
+                continue
+            if getattr(e, "scd5", None) is not None or getattr(e, "scd3", None) is not None:
+                continue
+            if e.fst5 is None or e.fst5 < len(site):
+                continue
+            el = e.elucidate()
+            if not el.startswith(site) or el.count("^") != 1 or el.count("_") != 1 or el.index("^") > el.index("_"):
+                continue
+        except Exception:
+            continue
+        out.append(str(e))
+    return out
+
+
 def enzyme_geometry(e: Enzyme) -> Tuple[str, int, int]:
     o = e.obj
     site = o.site
